@@ -31,5 +31,7 @@ func TestWorker(t *testing.T) {
 		"C13/epic":     runEPIC,
 		"C17/config":   runConfig,
 		"C22/paths":    runPaths,
+		"C28/combine":  runCombine,
+		"C29/combine":  runCombine,
 	}})
 }
